@@ -7,7 +7,7 @@ read the assignment. Loop invariants (closed-form state per iteration):
   loop 1 (setdefault over the inputs): keys = assignment keys ∪ first k inputs, new ones Undefined;
   loop 2 (over top_sort(inverse=True), by ITS CONTRACT — every gate exactly once, operands before users):
           the gates yielded so far hold den, everything else is as after loop 1.
-The top_sort contract is an assumption here (bounded under C20)."""
+The top_sort contract used here is proved from the generator's source under C20 (vlib/props/C20.py)."""
 import z3
 
 from ..pyvc.values import Sym, LabelSort, StateSort, GTypeSort, GT, ST_T, ST_F, ST_U, Obj, Native, Unsupported, PyRaise
